@@ -104,7 +104,10 @@ def build(t):
     if k == 'pseed':
         rp = t[2]
         cls = {'prand': lp.Prand, 'pxrand': lp.Pxrand, 'pshuffle': lp.Pshuffle}[rp[0]]
-        return fp.Pseed(t[1], cls([B(x) for x in rp[1]], rep(rp[2])))
+        def seed(sd):
+            return float(sd[1:]) if isinstance(sd, str) else int(sd)
+        sd = lp.Pseq([seed(x) for x in t[1][1:]], 1) if isinstance(t[1], list) else seed(t[1])
+        return fp.Pseed(sd, cls([B(x) for x in rp[1]], rep(rp[2])))
     if k == 'switch':
         return lp.Pswitch([B(x) for x in t[1]], B(t[2]))
     if k == 'switch1':
